@@ -353,3 +353,22 @@ Qed.
 Theorem cell_text v prefix k b : val_ok prefix -> render_cell_body v prefix = Ok (k, b) ->
   sq (visible_text (tokenize b)) = sq (cell_amount_text v ++ cell_description_text v).
 Proof. intros Hp H. exact (Vis_tokenize b _ (Vis_render_cell_body v prefix k b Hp H)). Qed.
+
+(** ** The whole [td] *)
+Theorem Vis_render_cell c prefix h : val_ok prefix -> render_cell c prefix = Ok h ->
+  Vis h (cell_amount_text (hc_value c) ++ cell_description_text (hc_value c)).
+Proof.
+  intro Hp. unfold render_cell.
+  destruct (render_cell_body (hc_value c) prefix) as [[k body]|] eqn:E; [|discriminate].
+  destruct (Good_render_cell_body _ _ _ _ Hp E) as [Gb Hk]. pose proof (Vis_render_cell_body _ _ _ _ Hp E) as Vb.
+  intro H. apply Ok_inj in H. subst h. destruct (span_attrs_ok c) as [Hs _].
+  eapply (Vis_t (s "td") body); [tag_const | | not_conv | exact Gb | exact Vb].
+  apply attrs_ok_cons; [aname_const | | exact Hs].
+  apply val_ok_join. constructor.
+  - cbn [kind_classes In] in Hk. repeat (destruct Hk as [<- | Hk]; [val_const|]). destruct Hk.
+  - repeat (apply Forall_app; split); apply border_class_ok; val_const.
+Qed.
+
+Theorem cell_text_td c prefix h : val_ok prefix -> render_cell c prefix = Ok h ->
+  sq (visible_text (tokenize h)) = sq (cell_amount_text (hc_value c) ++ cell_description_text (hc_value c)).
+Proof. intros Hp H. exact (Vis_tokenize h _ (Vis_render_cell c prefix h Hp H)). Qed.
